@@ -12,12 +12,20 @@ RECONS = ["extrapol1", "muscl_minmod", "muscl_vanalbada", "muscl_vanleer", "musc
 INTEGS = ["explicit", "rk2_heun", "rk3ssp"]
 
 
-def iterate(model, m, recon, integ, q0, cfl, nit):
-    """fields after each of nit iterations of the real solve (one solve call per iteration, continuing from its result)"""
+def iterate(model, m, recon, integ, q0, cfl, nit, mode="steps"):
+    """fields after each of nit iterations of the real solve (one solve call per iteration, continuing from its result);
+    mode "snapshots": ONE solve, observed through save times that fall between the steps (1.3, 2.6, ... first steps): the
+    snapshots are forward steps of at most one CFL step from the trajectory, so the range and the total variation do not grow
+    from one snapshot to the next either"""
     disc = fd.modeldisc.fvm(model, m, fd.recon(recon))
     solver = getattr(fd.tnum, integ)(m, disc)
     f = fd.field.fdata(model, m, [np.array(q0, dtype=float)])
     out = [f.data[0].copy()]
+    if mode == "snapshots":
+        with np.errstate(all="ignore"):
+            dt0 = float(np.min(disc.calc_timestep(f, cfl)))
+            res = solver.solve(f, cfl, [1.3 * k * dt0 for k in range(1, nit + 1)])
+        return out + [r.data[0].copy() for r in res]
     with np.errstate(all="ignore"):
         for _ in range(nit):
             f = solver.solve(f, cfl, stop={"maxit": 1})[-1]
@@ -73,11 +81,13 @@ def exact_records(rnd, tier):
     return recs
 
 
-def tok_of(fields, mk, recon, integ, cfl, n, data):
+def tok_of(fields, mk, recon, integ, cfl, n, data, against_initial=False):
+    """against_initial: the fields are snapshots, each a forward step from SOME state of the trajectory (not from the previous
+    snapshot): each is compared with the initial field (range within the initial range, variation not above the initial one)"""
     dmax, dmin, dtv = [], [], []
     finite = 1
     for k in range(len(fields) - 1):
-        a, b = fields[k], fields[k + 1]
+        a, b = (fields[0] if against_initial else fields[k]), fields[k + 1]
         if not (np.all(np.isfinite(a)) and np.all(np.isfinite(b))):
             finite = 0
             break
@@ -105,6 +115,8 @@ def tok_records(rnd, tier):
             cfl = rnd.choice([1.0, 0.9, 0.5, 0.1])
         else:
             L_ = rnd.choice([1.0, 10.0])
+            if c % 4 == 3:          # observed through snapshots of one solve, on a domain of any extent (steps of 1e-13 .. 1e7)
+                L_ = rnd.choice([1.0, 1e-11, 3e-12, 1e9])
             m = fd.uniform(n, length=L_, x0=rnd.choice([0.0, 0.0, -0.5 * L_ / n, -1.5 * L_ / n, -L_ / 2, 0.3, -7.3]))
             cfl = rnd.choice([0.5, 0.45, 0.3, 0.05])
         kind = rnd.choice(["rand", "step", "saw", "sign", "ints"])
@@ -124,11 +136,12 @@ def tok_records(rnd, tier):
         model = fd.conv.model(rnd.choice([1.0, -1.0, 3.0, -0.2])) if mk == "conv" else fd.burgers.model()
         nit = 8 if tier == "quick" else 30
         try:
-            fields = iterate(model, m, recon, integ, d, cfl, nit)
+            snaps = c % 4 == 3 and not (firstorder and mk == "conv" and c % 2 == 0)
+            fields = iterate(model, m, recon, integ, d, cfl, nit, mode="snapshots" if snaps else "steps")
         except Exception as ex:
             recs.append(dict(kind="raised", what=str(ex)[:100], model=mk, recon=recon, integ=integ))
             continue
-        recs.append(tok_of(fields, mk, recon, integ, cfl, n, kind))
+        recs.append(tok_of(fields, mk, recon, integ, cfl, n, kind, against_initial=snaps))
     return recs
 
 
